@@ -2,7 +2,8 @@
 (* C16 - the source line of AS:  [label[:]] mnemonic[.attr] [param,...] [;comment]                      *)
 (*                                                                                                     *)
 (* Part 1  the reader and the splitter as the code has them, over sequences of character codes:        *)
-(*           ReadLine   strutil.c ReadLnCont()  (LF / CR / ^Z stripping, backslash continuation)        *)
+(*           ReadLnCont strutil.c ReadLnCont()  (physical lines, chunked fgets, LF / CR / ^Z stripping,      *)
+(*                      backslash continuation; ReadLine = one logical line)                           *)
 (*           QPos       asmsub.c  QuotPosCore() (first match outside quotes, parentheses and brackets)  *)
 (*           Qualify    codepseudo.c QualifyQuote_SingleQuoteConstant(), codez80.c QualifyQuote_Z80()   *)
 (*           Split      as.c      SplitLine()   (comment cut, label, opcode, attribute, arguments)      *)
@@ -12,7 +13,7 @@
 (*         manual calls equivalent (case, blanks/tabs, comment, CR-LF, optional colon).                 *)
 (* Part 3  the property:  Norm(Split(ReadLine(Render(L, c)), P)) = Norm(L) for every choice c.          *)
 (*                                                                                                     *)
-(* Deliberate deviations of the code are kept and named (NegativeBracket, LastDividerOnly,             *)
+(* Deliberate deviations of the code are kept and named (CRSplitFromLF, NegativeBracket, LastDividerOnly, *)
 (* DeadColonStrip, NulIsDivider); lengths are assumed < STRINGSIZE (no truncation modelled).            *)
 EXTENDS Integers, Sequences, FiniteSets
 
@@ -41,21 +42,71 @@ RECURSIVE TrimR(_)
 TrimR(s) == IF Len(s) > 0 /\ IsSpace(s[Len(s)]) THEN TrimR(SubSeq(s, 1, Len(s) - 1)) ELSE s   \* KillPostBlanks
 
 ------------------------------------------------------------------------------------------------------
-(* strutil.c ReadLnCont(): physical lines -> one logical line                                          *)
-StripEol(s) ==                                     \* one fgets() result that ends in LF (or the last line)
-  LET a == IF Len(s) > 0 /\ s[Len(s)] = LF THEN SubSeq(s, 1, Len(s) - 1) ELSE s
-      b == IF Len(a) < Len(s) /\ Len(a) > 0 /\ a[Len(a)] = CR THEN SubSeq(a, 1, Len(a) - 1) ELSE a
-  IN  b                                            \* CR is only stripped in front of a LF (Terminated)
-StripCtrlZ(s) == IF Len(s) > 0 /\ s[Len(s)] = CTRLZ THEN SubSeq(s, 1, Len(s) - 1) ELSE s
+(* strutil.c ReadLnCont(): the source file is a sequence of characters; one call delivers one LOGICAL    *)
+(* line = physical lines joined where a physical line ends in a backslash.  Every physical line may end  *)
+(* in LF or CR-LF independently (or in nothing: last line of the file).  The code reads a physical line  *)
+(* in chunks: fgets() into what is left of the line buffer (capacity grows by 128 whenever fewer than    *)
+(* 128 characters are left and is kept from line to line), so a long physical line - or a continued      *)
+(* one, whose later parts find a partly filled buffer - arrives in several chunks.                        *)
+(*   B = [cap, low, grow]  buffer state: capacity, reallocation threshold, growth (real: 256.., 128, 128) *)
+RealBuf == [cap |-> 256, low |-> 128, grow |-> 128]
 
-\* phys: sequence of physical lines (each with its line end); result: [text, used] like ReadLnCont's count
-RECURSIVE ReadCont(_, _, _)
-ReadCont(phys, k, acc) ==
-  IF k > Len(phys) THEN [text |-> acc, used |-> k - 1]
-  ELSE LET t == StripCtrlZ(acc \o StripEol(phys[k])) IN
-       IF Len(t) > 0 /\ t[Len(t)] = BSLASH THEN ReadCont(phys, k + 1, SubSeq(t, 1, Len(t) - 1))
-       ELSE [text |-> t, used |-> k]
-ReadLine(phys) == ReadCont(phys, 1, <<>>).text
+\* fgets(n): at most n-1 characters from position pos, stopping behind the first LF
+RECURSIVE FgetsEnd(_, _, _)
+FgetsEnd(file, j, last) == IF j >= last \/ file[j] = LF THEN j ELSE FgetsEnd(file, j + 1, last)
+Fgets(file, pos, n) ==            \* precondition pos <= Len(file), n >= 2
+  LET last == IF pos + n - 2 <= Len(file) THEN pos + n - 2 ELSE Len(file) IN SubSeq(file, pos, FgetsEnd(file, pos, last))
+
+\* the inner loop: chunks of one physical line appended to acc (= the logical line so far).
+\* CR is stripped only from the chunk that carries the LF (Terminated), and only if that chunk still has a
+\* character in front of the LF.  CRSplitFromLF: if the buffer ends exactly between CR and LF, the LF arrives as
+\* a chunk of its own and the CR stays in the line (flag crsplit) - kept as in the code.
+RECURSIVE ReadPhys(_, _, _, _, _)
+ReadPhys(file, pos, B, acc, crsplit) ==
+  LET cap2 == IF B.cap - Len(acc) < B.low THEN B.cap + B.grow ELSE B.cap
+      B2   == [B EXCEPT !.cap = cap2]
+  IN  IF pos > Len(file) THEN [text |-> acc, pos |-> pos, B |-> B2, eof |-> TRUE, crsplit |-> crsplit]     \* fgets() = NULL
+      ELSE LET ch   == Fgets(file, pos, cap2 - Len(acc))
+               term == ch[Len(ch)] = LF
+               c1   == IF term THEN SubSeq(ch, 1, Len(ch) - 1) ELSE ch
+               c2   == IF term /\ Len(c1) > 0 /\ c1[Len(c1)] = CR THEN SubSeq(c1, 1, Len(c1) - 1) ELSE c1
+               cs   == crsplit \/ (term /\ Len(c1) = 0 /\ Len(acc) > 0 /\ acc[Len(acc)] = CR)
+           IN  IF term THEN [text |-> acc \o c2, pos |-> pos + Len(ch), B |-> B2, eof |-> FALSE, crsplit |-> cs]
+               ELSE ReadPhys(file, pos + Len(ch), B2, acc \o c2, cs)
+
+\* the outer loop: ^Z stripping and backslash continuation.  Result [text, pos, B, used, crsplit]
+RECURSIVE ReadLog(_, _, _, _, _, _)
+ReadLog(file, pos, B, acc, used, crsplit) ==
+  LET r == ReadPhys(file, pos, B, acc, crsplit)
+      t == IF Len(r.text) > 0 /\ r.text[Len(r.text)] = CTRLZ THEN SubSeq(r.text, 1, Len(r.text) - 1) ELSE r.text
+  IN  IF Len(t) > 0 /\ t[Len(t)] = BSLASH /\ ~r.eof
+      THEN ReadLog(file, r.pos, r.B, SubSeq(t, 1, Len(t) - 1), used + 1, r.crsplit)
+      ELSE [text |-> IF Len(t) > 0 /\ t[Len(t)] = BSLASH THEN SubSeq(t, 1, Len(t) - 1) ELSE t,     \* "\" at end of file
+            pos |-> r.pos, B |-> r.B, used |-> used + 1, crsplit |-> r.crsplit]
+ReadLnCont(file, pos, B) == ReadLog(file, pos, B, <<>>, 0, FALSE)
+
+\* all logical lines of a file, the buffer capacity carried from call to call
+RECURSIVE ReadAll(_, _, _, _)
+ReadAll(file, pos, B, acc) ==
+  IF pos > Len(file) THEN acc
+  ELSE LET r == ReadLnCont(file, pos, B) IN ReadAll(file, r.pos, r.B, Append(acc, r.text))
+FileLines(file) == ReadAll(file, 1, RealBuf, <<>>)
+
+RECURSIVE Flatten(_, _)
+Flatten(phys, k) == IF k > Len(phys) THEN <<>> ELSE phys[k] \o Flatten(phys, k + 1)
+\* phys: the physical lines (with their line ends) of ONE logical line
+ReadLine(phys) == ReadLnCont(Flatten(phys, 1), 1, RealBuf).text
+
+(* declarative side: a logical line written as a chain of pieces.  piece = [t, eol]: text (no CR/LF, not  *)
+(* ending in backslash or ^Z) and its line end; every piece but the last is followed by a backslash.      *)
+RECURSIVE ChainFile(_, _)
+ChainFile(ch, k) == IF k > Len(ch) THEN <<>>
+                    ELSE ch[k].t \o (IF k < Len(ch) THEN <<BSLASH>> ELSE <<>>) \o ch[k].eol \o ChainFile(ch, k + 1)
+RECURSIVE ChainText(_, _)
+ChainText(ch, k) == IF k > Len(ch) THEN <<>> ELSE ch[k].t \o ChainText(ch, k + 1)
+\* line ends are immaterial for every physical line: the logical line is the concatenation of the pieces
+ChainReadsAsText(ch, B) == LET r == ReadLnCont(ChainFile(ch, 1), 1, B) IN
+                           r.crsplit \/ (r.text = ChainText(ch, 1) /\ r.used = Len(ch) /\ r.pos = Len(ChainFile(ch, 1)) + 1)
 
 ------------------------------------------------------------------------------------------------------
 (* quote qualification: is the apostrophe at s[i] the start of a character string?  st = scan start     *)
